@@ -58,10 +58,10 @@ pub fn show(s: &Script) -> String {
 }
 
 /// The transport under each fake channel: carries the key and reports its own drop.
-struct KeyedTransport {
-    key: u32,
-    serial: usize,
-    drops: Rc<RefCell<Vec<(usize, u32)>>>,
+pub(crate) struct KeyedTransport {
+    pub(crate) key: u32,
+    pub(crate) serial: usize,
+    pub(crate) drops: Rc<RefCell<Vec<(usize, u32)>>>,
 }
 
 impl Drop for KeyedTransport {
@@ -93,7 +93,7 @@ impl Sink<Response<()>> for KeyedTransport {
     }
 }
 
-type Chan = BaseChannel<(), (), KeyedTransport>;
+pub(crate) type Chan = BaseChannel<(), (), KeyedTransport>;
 
 pub fn run_impl(s: &Script) -> (Vec<Vec<String>>, Vec<String>) {
     let (tx, rx) = mpsc::unbounded::<Chan>();
